@@ -25,7 +25,7 @@ package poll
 // group; it never returns a connection of another group, and only reports none when the group is empty.
 // K is an arbitrary index: what is proved for it holds for every registered connection of the group.
 //@ func (*connections).get
-//@ props C18
+//@ props C18 C19
 //@ nopanic C13 C18
 //@ records get
 //@ ghost K int
@@ -41,7 +41,7 @@ package poll
 // limit: a reconnect replaces the older connection); then the new connection is either closed at once
 // (limit reached) or registered under its own group and counted.
 //@ func (*connections).add
-//@ props C18
+//@ props C18 C19
 //@ nopanic C13 C18
 //@ elem conns assume elem != nil && elem.ch != nil && !closed(elem.ch) && elem.ch != conn.ch
 //@ requires cs != nil && cs.conns != nil && cs.cnt != nil && conn != nil && conn.ch != nil && !closed(conn.ch)
@@ -54,7 +54,7 @@ package poll
 // rmv removes at most one connection (the one with the given id; with match only if it is the very same
 // connection), closes its channel and keeps the counters in step; nothing else leaves the registry.
 //@ func (*connections).rmv
-//@ props C18
+//@ props C18 C19
 //@ nopanic C13 C18
 //@ records rmv
 //@ elem conns assume elem != nil && elem.ch != nil && !closed(elem.ch)
